@@ -26,7 +26,7 @@ def run(tier):
         ck.violation({"where": "model", "config": "StatsMC", "invariant": r.violated})
     P = []
     x = 1
-    reps = 4 if thorough else 2
+    reps = 12 if thorough else 2
     for rep in range(reps):
         for dt in progs.STAT_TYPES:
             for total in ([300, 5000, 60000] + ([450000] if dt in ("f32", "i32", "u32", "i64", "f64", "u16") else [])
